@@ -150,6 +150,7 @@ type State struct {
 	ThreadHeap0 int // heap size when the current thread started (younger objects are its own allocations)
 	SelN    int         // number of select statements executed on this path
 	WG      map[int]int // ghost sync.WaitGroup counters by object key
+	Builders map[int]StrV // content of strings.Builder objects by object key (copy-on-write)
 }
 
 func (st *State) clone() *State {
@@ -166,6 +167,7 @@ func (st *State) clone() *State {
 		SelN:    st.SelN,
 		Thread:  st.Thread, ThreadHeap0: st.ThreadHeap0, Acc: st.Acc,
 	}
+	n.Builders = st.Builders
 	if len(st.WG) > 0 {
 		n.WG = make(map[int]int, len(st.WG))
 		for k, v := range st.WG {
